@@ -29,8 +29,8 @@ META = dict(
     "with names t<l>^<r>) and FASTA text are rebuilt from the positional model (alignment = reference "
     "overlaid with model.allele_at at each site) and must match line by line; documented ValueErrors "
     "(isolated samples, multi-root trees, wrong reference length, bad wrap_width). (large_shapes) "
-    "enumerated combs, stars, chains and balanced trees with 1..1001 (thorough ..10001) nodes x time "
-    "scales, fast and general path.",
+    "enumerated combs, stars, chains and balanced trees with 1..1500 (thorough ..10001) nodes x time "
+    "scales, fast and general path (the general path must not depend on the recursion limit).",
     assumptions=[
         "reference model vf/model.py; Newick parser and decimal formatter in this module",
         "printf/format rounding is round-half-even on the exact binary value (glibc and CPython both are)",
@@ -623,7 +623,7 @@ def build_shape(shape, n, tstyle):
 
 
 def enum_large(tier, seed):
-    sizes = [1, 2, 9, 10, 11, 99, 100, 101, 999, 1000, 1001]
+    sizes = [1, 2, 9, 10, 11, 99, 100, 101, 999, 1000, 1001, 1500]
     if tier != "quick":
         sizes += [3000, 5000, 9999, 10000, 10001]
     for shape in ("chain", "star", "comb", "balanced"):
@@ -631,14 +631,7 @@ def enum_large(tier, seed):
             for k, tstyle in enumerate(("int", "frac", "tiny", "huge", "neg", "mixed")):
                 if n > 1001 and k % 2 and shape != "star":
                     continue
-                c = dict(shape=shape, n=n, tstyle=tstyle, general=False)
-                c["general"] = shape_depth(c) <= DEEP
-                yield c
-    # the one deep case sent through the recursive general path (classified, see PROBES); last on purpose
-    yield dict(shape="chain", n=1001, tstyle="int", general=True)
-
-
-DEEP = 850  # beyond this depth the recursive general path is a separate (classified) class
+                yield dict(shape=shape, n=n, tstyle=tstyle)
 
 
 def shape_depth(case):
@@ -665,8 +658,7 @@ def run_large(case, ctx):
     ctx.label("shape_" + case["shape"])
     ctx.label("times_" + case["tstyle"])
     ctx.label("n>=999", n >= 999)
-    deep = shape_depth(case) > DEEP
-    ctx.label("deep", deep)
+    ctx.label("depth>=1000", shape_depth(case) >= 1000)
     ctx.nt(n >= 2)
     spec = None
     for pa in (None, 0, 17):
@@ -676,8 +668,6 @@ def run_large(case, ctx):
         check_newick_string(ctx, fast, expected_tree(spec, par, ch, 0, deflab, p, True, times=times),
                             "large.fast", f"[{case} precision={pa}]")
         if pa == 17 and n > 200:
-            continue
-        if deep and not case["general"]:
             continue
         general = tree.as_newick(node_labels=dict(deflab), **kw)
         ctx.check(fast == general, "large.fast_vs_general", lambda: f"{fast[:200]!r} vs {general[:200]!r} {case}")
@@ -692,16 +682,6 @@ def run_large(case, ctx):
                         f"[{case} root={r}]")
 
 
-def classify_large(case, exc):
-    if shape_depth(case) > DEEP and "RecursionError" in str(exc):
-        return "newick.general_path_recursion_depth"
-    return None
-
-
-PROBES = {
-    "newick.general_path_recursion_depth": ("C18.large_shapes", dict(shape="chain", n=1001, tstyle="int", general=True)),
-}
-
 SUBCHECKS = [
     SubCheck("C18.newick", run_newick, strategy=newick_case, quick=6000, thorough=180000,
              rule="tree sequence has >=1 edge and: a polytomy, unary node or internal sample, or a negative time, "
@@ -715,7 +695,7 @@ SUBCHECKS = [
              floors={"fasta_compared": 0.25, "nexus_compared": 0.3, "nexus_with_data": 0.1, "nexus_with_trees": 0.2,
                      "fasta_error_expected": 0.1, "nexus_error_expected": 0.1, "mutations": 0.3,
                      "ref_embedded": 0.05, "ref_arg": 0.05}),
-    SubCheck("C18.large_shapes", run_large, enumerate=enum_large, quick=1, thorough=1, classify=classify_large,
-             rule="chains, stars, combs and balanced trees on {1,2,9,10,11,99,100,101,999,1000,1001} nodes (thorough: "
+    SubCheck("C18.large_shapes", run_large, enumerate=enum_large, quick=1, thorough=1,
+             rule="chains, stars, combs and balanced trees on {1,2,9,10,11,99,100,101,999,1000,1001,1500} nodes (thorough: "
              "also 3000,5000,9999,10000,10001) x six time scales; n>=2"),
 ]
